@@ -199,6 +199,7 @@ class AsyncIOClient(ABC):
                 await self._update_state(State.DISCONNECTED)
                 if self._state == State.CLOSED:
                     return
+                self._schedule_reconnect()  # should this call be cancelled as well, somebody still has to reconnect
                 
             # Use AsyncRetrying for proper async behavior
             async for attempt in AsyncRetrying(
@@ -225,23 +226,34 @@ class AsyncIOClient(ABC):
                         if self.writer:
                             self.writer.close()
                         return
-                    await self._update_state(State.CONNECTED)
-                    if self._state == State.CLOSED:
-                        # close() was called from/while the status callback ran
-                        return
-                    self.logger.info("Connected to the gateway.")
-    
-                    # Cancel any existing receive loop task
-                    if self._receive_task and not self._receive_task.done():
-                        self.logger.info("Going to cancel existing receive task")
-                        self._receive_task.cancel()
-                        # Allow cancellation to propagate.  (A cancellation of this very task - close() ends the
-                        # reconnect task - is passed on: turned into another exception it would be retried)
-                        await asyncio.sleep(0.01)
+                    try:
+                        await self._update_state(State.CONNECTED)
                         if self._state == State.CLOSED:
-                            # close() was called meanwhile and has returned: start no background task any more
-                            self.logger.info("Object terminated while the old receive task was cancelled.")
+                            # close() was called from/while the status callback ran
                             return
+                        self.logger.info("Connected to the gateway.")
+    
+                        # Cancel any existing receive loop task
+                        if self._receive_task and not self._receive_task.done():
+                            self.logger.info("Going to cancel existing receive task")
+                            self._receive_task.cancel()
+                            # Allow cancellation to propagate.  (A cancellation of this very task - close() ends the
+                            # reconnect task - is passed on: turned into another exception it would be retried)
+                            await asyncio.sleep(0.01)
+                            if self._state == State.CLOSED:
+                                # close() was called meanwhile and has returned: start no background task any more
+                                self.logger.info("Object terminated while the old receive task was cancelled.")
+                                return
+                    except asyncio.CancelledError:
+                        if self._state == State.CONNECTED:
+                            # Cancelled by the caller (a timeout) after CONNECTED was reported and before the receive
+                            # loop exists: nobody would read from the new link or notice its end.  Give it up as after
+                            # any other fault, so that the reconnect task brings the client back.
+                            self.logger.info("connect was cancelled before the receive loop was started")
+                            self._shut_link()
+                            await self._update_state(State.DISCONNECTED)
+                            self._schedule_reconnect()
+                        raise
     
                     self.logger.info("Starting receive loop task")
                     # Start a new receive loop task
